@@ -436,7 +436,7 @@ var kinds = []string{"ipv4", "ipv6", "mpls", "nhg", "nh"}
 func TestCheck(t *testing.T) {
 	run := ev.Start(t, "C18", "exploration")
 	// (a) builder programs
-	nA := run.Pick(20000, 600000)
+	nA := run.Pick(60000, 600000)
 	ev.Parallel(nA, ev.Workers(), func(i int) {
 		caseID := fmt.Sprintf("builder-%d", i)
 		if !run.Want(caseID) {
@@ -494,7 +494,7 @@ func TestCheck(t *testing.T) {
 	})
 
 	// (b) client programs: ids, operation types, election stamps, no aliasing with queued messages
-	nB := run.Pick(600, 20000)
+	nB := run.Pick(1500, 20000)
 	ev.Parallel(nB, ev.Workers(), func(i int) {
 		caseID := fmt.Sprintf("client-%d", i)
 		if !run.Want(caseID) {
